@@ -32,4 +32,5 @@ func Run(r *core.Run) {
 	c10.Explore(r, c10.Options{Mutation: true, Depth: core.Pick(r, 2, 3), Corner: false, FoldLawDepth: 0})
 	r.Require("failing-list", 3)
 	r.Require("pointer-into-earlier-patch", 100)
+	r.Require("adjacent-patches", 100)
 }
